@@ -187,3 +187,46 @@ def unwrap_violation_at_call_position(node, code, file_path):
         return True
     v = call(L + "_build_violation_for_call", unwrap_call_of(node, code), file_path)
     return v.file_path == file_path and v.line == node.start_point[0] + 1 and v.column == node.start_point[1]
+
+
+# ------------------------------------------------------------------ the rule's entry point
+from contracts._common import PathT, path_str  # noqa: E402
+
+CtxT = Rec("LintContext", file_path=Opt(PathT), file_content=Opt(Str), language=Str)
+RuleWithConfigT = Rec("UnwrapAbuseRule", cls=L + "UnwrapAbuseRule", _config_override=Opt(UnwrapConfigT), _analyzer=AnalyzerT)
+
+
+def reported_path(context):
+    return path_str(context.file_path) if context.file_path is not None else "unknown"
+
+
+def analyzed(context, config):
+    """Rust file with content, rule enabled, path not matched by an `ignore` substring pattern."""
+    return (context.language == "rust" and context.file_content is not None and config.enabled
+            and not any(ignored in reported_path(context) for ignored in config.ignore))
+
+
+@contract(L + "UnwrapAbuseRule.check", props=["C17"], types=dict(self=RuleWithConfigT, context=CtxT),
+          returns=SeqOf(ViolationT),
+          inline=["_get_config", "_should_analyze", "has_file_content", "resolve_file_path", "is_ignored_path"])
+class UnwrapCheck:
+    """Composition for a rule constructed with an explicit configuration (loading it from files is C05)."""
+
+    def requires(self, context):
+        return self._config_override is not None
+
+    def ensures_nothing_unless_analyzed(self, context, result):
+        return implies(not analyzed(context, self._config_override), len(result) == 0)
+
+    def witness_nothing_unless_analyzed():
+        # concrete input tried natively when the solver cannot decide the clause above: a disabled rule on a reportable file
+        return {"self": {"_config_override": {"enabled": False, "allow_in_tests": True, "allow_expect": True, "ignore": []},
+                         "_analyzer": {"tree_sitter_available": True}},
+                "context": {"file_path": None, "file_content": "fn f() { let a = Some(1).unwrap(); }", "language": "rust"}}
+
+    def ensures_one_violation_per_reportable_call_in_document_order(self, context, result):
+        return implies(analyzed(context, self._config_override) and self._analyzer.tree_sitter_available
+                       and rust_root(context.file_content) is not None,
+                       result == [unwrap_violation(call, reported_path(context))
+                                  for call in collect_unwrap(rust_root(context.file_content), context.file_content)
+                                  if not skipped(call, self._config_override)])
